@@ -593,10 +593,14 @@ impl CasObjectInfoV1 {
         let offset_to_boundary_section_offset =
             size_of::<u32>() + size_of_val(&s._buffer) + size_of_val(&s.boundary_section_offset_from_end);
         reader.seek(SeekFrom::End(-(offset_to_boundary_section_offset as i64)))?;
-        let mut boundary_section_offset_from_end = read_u32(reader)?;
+        let boundary_section_offset_from_end = read_u32(reader)?;
 
         // add 4 bytes to offset from info_length at the end
-        boundary_section_offset_from_end += size_of::<u32>() as u32;
+        let boundary_section_offset_from_end = boundary_section_offset_from_end
+            .checked_add(size_of::<u32>() as u32)
+            .ok_or_else(|| {
+                CasObjectError::FormatError(anyhow!("Xorb Invalid: boundary_section_offset_from_end out of range."))
+            })?;
         reader.seek(SeekFrom::End(-(boundary_section_offset_from_end as i64)))?;
 
         let mut counting_reader = countio::Counter::new(reader);
